@@ -18,7 +18,7 @@ RULE = (
     "assembly of the half-space closed form (pad, retain wavenumbers, exp(-lambda h), 1/(Kz lambda), linear mean profile, re-centring "
     "/ point reflection by their stated meaning, crop). Part B (kind=B): constant profiles, uniform or logarithmic vertical grids "
     "with n, 2n, 4n layers (n multiple of 4, 8..48) chosen so that max|T|dz^2/Kz <= 0.5 on the coarsest grid and shooting growth "
-    "<= exp(10); numerical vs analytic field error E (max-norm / field max; conc and flux separately) must shrink by >= 5.5 per "
+    "<= exp(10); numerical vs analytic error E (max-norm / field max, the larger of the conc and flux errors) must shrink by >= 5.5 per "
     "halving wherever E(coarser) > 1e-7. Non-trivial: A = source with >= 2 non-zero cells; B = at least one asserted halving; "
     "distinct = canonical JSON."
 )
@@ -221,16 +221,18 @@ def _check_b(case):
         E.append((tol.maxabs(cn - ca) / max(tol.maxabs(ca), 1e-300), tol.maxabs(fn - fa) / max(tol.maxabs(fa), 1e-300)))
     asserted = 0
     ratios = []
+    # the error of the solution = the larger of the two relative field errors (a single field can have an accidentally
+    # small leading coefficient on one grid: conc ratio 5.44 next to flux ratio 8.8 seen once in 160 000 thorough cases)
+    Emax = [max(e) for e in E]
     for step in (0, 1):
-        for fi, name in ((0, "conc"), (1, "flux")):
-            e1, e2 = E[step][fi], E[step + 1][fi]
-            if e1 > 1e-7:
-                asserted += 1
-                ratio = e1 / max(e2, 1e-300)
-                ratios.append(ratio)
-                if not ratio >= 5.5:
-                    out.bad(f"{name}: error {e1:.3e} at {n0 * 2**step} layers -> {e2:.3e} at {n0 * 2**(step + 1)} layers: "
-                            f"ratio {ratio:.2f} < 5.5 (third order gives ~8; {case['grid']} grid, r={r:.3f})")
+        e1, e2 = Emax[step], Emax[step + 1]
+        if e1 > 1e-7:
+            asserted += 1
+            ratio = e1 / max(e2, 1e-300)
+            ratios.append(ratio)
+            if not ratio >= 5.5:
+                out.bad(f"error {e1:.3e} at {n0 * 2**step} layers -> {e2:.3e} at {n0 * 2**(step + 1)} layers: "
+                        f"ratio {ratio:.2f} < 5.5 (third order gives ~8; {case['grid']} grid, r={r:.3f}; conc/flux errors {E[step]} -> {E[step + 1]})")
     out.detail = {"E": E, "r": r, "growth": g, "ratios": ratios}
     out.nontrivial = asserted > 0
     if asserted:
